@@ -1118,6 +1118,15 @@ class Interp:
                                        "qualname": f"{c.name.split('.')[-1]}.{attr}"})
                 if isinstance(n, ast.Assign) and len(n.targets) == 1 and isinstance(n.targets[0], ast.Name) \
                         and n.targets[0].id == attr:
+                    if any((isinstance(b, ast.Name) and b.id in ("Enum", "IntEnum", "Flag")) or
+                           (isinstance(b, ast.Attribute) and b.attr in ("Enum", "IntEnum", "Flag")) for b in c.node.bases):
+                        # a member of an Enum class: a singleton object identified by class and member name
+                        if not hasattr(self, "_enum_members"):
+                            self._enum_members = {}
+                        key = f"enum:{c.name.split('.')[-1]}.{attr}"
+                        if key not in self._enum_members:
+                            self._enum_members[key] = VObj(key)
+                        return ("value", self._enum_members[key])
                     return ("value", self.ev(n.value, Env(module)))
             for b in c.node.bases:
                 try:
